@@ -12,7 +12,7 @@ use uuid::Uuid;
 fn own_ref(r: &IdRef, c: u8) -> bool {
     match r {
         IdRef::Nil | IdRef::Fresh(_) | IdRef::Literal(_) => true,
-        IdRef::Latest(k) | IdRef::Ancestor(k, _) | IdRef::Base(k) | IdRef::SnapVersion(k) => *k == c,
+        IdRef::Latest(k) | IdRef::Ancestor(k, _) | IdRef::Base(k) | IdRef::SnapVersion(k) | IdRef::Near(k, _, _) => *k == c,
     }
 }
 
@@ -193,6 +193,16 @@ pub fn run(tier: Tier, seed: u64) -> Report {
     let total = tier.pick(8000, 80_000);
     let r = engine::explore("C09", "history", seed, total, || hcase(&p, 20).prop_filter_map_nclients(), check);
     rep.absorb("random-histories", r);
+    if rep.failed() {
+        return rep;
+    }
+    // many clients at once (beyond any small table or cache a server might keep per client)
+    let mut pm = p.clone();
+    pm.max_clients = 24;
+    pm.min_ops = 30;
+    pm.max_ops = tier.pick(70, 160);
+    let r = engine::explore("C09", "history", seed ^ 0x9, tier.pick(250, 3000), || hcase(&pm, 20).prop_filter_map_nclients(), check);
+    rep.absorb("random-histories-up-to-24-clients", r);
     rep
 }
 
